@@ -103,6 +103,7 @@ func cmdDump(args []string) int {
 	repo := fs.String("repo", repoDir, "repository")
 	obl := fs.String("obl", "", "obligation whose query is written to stdout")
 	all := fs.Bool("v", false, "list discharged obligations too")
+	caseN := fs.Int("case", -1, "case of a split obligation")
 	to := fs.Int("t", 10, "timeout seconds")
 	fs.Parse(args)
 	p, err := loadProgram(*repo)
@@ -141,13 +142,13 @@ func cmdDump(args []string) int {
 		}
 		if *obl != "" {
 			for _, o := range u.Obls {
-				if o.Name == *obl {
+				if o.Name == *obl && (*caseN < 0 || o.Case == *caseN) {
 					fmt.Print(o.Query(true))
 				}
 			}
 			continue
 		}
-		rs := vc.SolveAll(u.Obls, vc.SolverCfg{Timeout: time.Duration(*to) * time.Second, Scratch: sc, Models: true}, 16)
+		rs := vc.Aggregate(vc.SolveAll(u.Obls, vc.SolverCfg{Timeout: time.Duration(*to) * time.Second, Scratch: sc, Models: true}, 16))
 		for _, r := range rs {
 			ok := (r.Status == "unsat" && !r.Obl.Cover) || (r.Status == "sat" && r.Obl.Cover)
 			if ok && !*all {
@@ -218,6 +219,19 @@ func cmdCheck(args []string) int {
 	sc := scratchDir()
 	defer os.RemoveAll(sc)
 
+	// the replay harness (bounded contract-execution sweep on the real code) runs concurrently with the proof
+	var rr replayResult
+	replayDone := make(chan struct{})
+	ranReplay := false
+	if cfg.Replay != "" && !*noReplay {
+		ranReplay = true
+		go func() {
+			rr = runReplay(*repo, cfg, *prop, seed, *tier, "")
+			close(replayDone)
+		}()
+	} else {
+		close(replayDone)
+	}
 	// generate
 	type unitRes struct {
 		key  string
@@ -292,7 +306,7 @@ func cmdCheck(args []string) int {
 	if *tier == "thorough" {
 		timeout = 60 * time.Second
 	}
-	results := vc.SolveAll(obls, vc.SolverCfg{Timeout: timeout, Scratch: sc, Models: true, AllAgree: *tier == "thorough"}, 16)
+	results := vc.Aggregate(vc.SolveAll(obls, vc.SolverCfg{Timeout: timeout, Scratch: sc, Models: true, AllAgree: *tier == "thorough"}, 16))
 
 	// classify
 	var reports []oblReport
@@ -403,32 +417,22 @@ func cmdCheck(args []string) int {
 			}
 		}
 	}
-	if len(engineErrs) > 0 {
-		for _, e := range engineErrs {
-			fmt.Println("ENGINE-ERROR", e)
-		}
-	}
-	replayed := 0
-	var rr replayResult
-	ranReplay := false
-	if cfg.AlwaysReplay && !*noReplay {
-		rr = runReplay(*repo, cfg, *prop, seed, *tier, "")
-		replayed = rr.cases
-		ranReplay = true
+	<-replayDone
+	replayed := rr.cases
+	if ranReplay {
 		if rr.cases == 0 && len(rr.fails) == 0 {
-			engineErrs = append(engineErrs, "bounded stand-in harness ran no cases: "+firstLines(rr.output, 15))
+			// the harness did not run (build failure?): on the unchanged tree this is an engine error
+			fmt.Println("NOTE: replay harness produced no cases: " + firstLines(rr.output, 8))
+			if len(fails) == 0 {
+				engineErrs = append(engineErrs, "replay harness ran no cases: "+firstLines(rr.output, 8))
+			}
 		}
 		if len(rr.fails) > 0 && len(fails) == 0 {
-			fails = append(fails, fail{"bounded:" + cfg.Replay, "bounded stand-in / contract-execution sweep on the real code found a failing input: " + rr.fails[0], "", ""})
+			fails = append(fails, fail{"bounded:" + cfg.Replay, "bounded contract-execution sweep on the real code found a failing input although every obligation was discharged: " + rr.fails[0], "", ""})
 		}
 	}
 	if len(fails) > 0 {
 		os.MkdirAll(replayDir, 0o755)
-		// one replay run for the property (bounded search on the real code), shared by all failed obligations
-		if !*noReplay && cfg.Replay != "" && !ranReplay {
-			rr = runReplay(*repo, cfg, *prop, seed, *tier, "")
-			replayed = rr.cases
-		}
 		for _, f := range fails {
 			path := filepath.Join(replayDir, vc.SafeName(f.name)+".json")
 			rec := map[string]interface{}{
@@ -445,6 +449,9 @@ func cmdCheck(args []string) int {
 			lines = append(lines, fmt.Sprintf("VIOLATION property=%s replay=%s%s", *prop, path, suffix))
 			violations++
 		}
+	}
+	for _, e := range engineErrs {
+		fmt.Println("ENGINE-ERROR", e)
 	}
 	for _, l := range lines {
 		fmt.Println(l)
